@@ -32,6 +32,35 @@ func buildPool() []*parrot {
 			ps = append(ps, &p)
 		}
 	}
+	// HelloCustom clients: the spec of a parrot applied with ApplyPreset, as it is and with the extended_master_secret
+	// (2) / session_ticket (0) / pre_shared_key (1) extension removed, and specs made by the Fingerprinter from a
+	// parrot's own ClientHello
+	for _, b := range []struct {
+		n  string
+		id tls.ClientHelloID
+	}{{"Chrome_100", tls.HelloChrome_100}, {"Chrome_100_PSK", tls.HelloChrome_100_PSK}, {"Firefox_120", tls.HelloFirefox_120}} {
+		for _, v := range []struct {
+			sfx  string
+			drop []int
+		}{{"", nil}, {"-ems", []int{2}}, {"-tkt", []int{0}}, {"-psk", []int{1}}, {"-ems-psk", []int{2, 1}}} {
+			if strings.Contains(v.sfx, "psk") && b.n != "Chrome_100_PSK" {
+				continue
+			}
+			p := customFromID("Custom("+b.n+")"+v.sfx, b.id, v.drop...)
+			ps = append(ps, &p)
+		}
+	}
+	for _, b := range []struct {
+		n  string
+		id tls.ClientHelloID
+	}{{"Chrome_100", tls.HelloChrome_100}, {"Firefox_120", tls.HelloFirefox_120}, {"360_7_5", tls.Hello360_7_5}} {
+		p := customFingerprinted("Fingerprinted("+b.n+")", b.id)
+		ps = append(ps, &p)
+		if b.n != "360_7_5" {
+			q := customFingerprinted("Fingerprinted("+b.n+")-ems", b.id, 2)
+			ps = append(ps, &q)
+		}
+	}
 	return ps
 }
 
@@ -193,6 +222,34 @@ func run(c *vh.Ctx) {
 			no13 = append(no13, p.Name)
 		}
 	}
+	// a custom kind that cannot complete a plain full handshake on its own (e.g. a fingerprinted spec the library
+	// cannot replay) says nothing about resumption: leave it out and record it
+	{
+		var keep []*parrot
+		var unusable []string
+		for _, p := range usable {
+			ok := true
+			if p.Custom {
+				for _, k := range []int{srv12, srv13} {
+					if k == srv13 && !p.Max13 {
+						continue
+					}
+					r := runHistory(pk, 77, []connPlan{{P: p, Name: 0, Srv: k, OmitEmpty: true}})
+					if r.err != "" || classOf(&r.obs[0]) != 0 {
+						ok = false
+						unusable = append(unusable, fmt.Sprintf("%s/%s: %s%s %s", p.Name, srvKindName[k], r.obs[0].CliErr, r.obs[0].CliPanic, r.obs[0].Srv.err))
+					}
+				}
+			}
+			if ok {
+				keep = append(keep, p)
+			} else {
+				delete(byName, p.Name)
+			}
+		}
+		usable = keep
+		c.Extra["custom_kinds_unusable"] = unusable
+	}
 	c.Extra["cannot_resume_tls12_no_session_ticket_ext"] = no12
 	c.Extra["cannot_resume_tls13_no_pre_shared_key_ext"] = no13
 	c.Extra["spec_errors"] = specErr
@@ -309,6 +366,32 @@ func run(c *vh.Ctx) {
 				sk[i].SkipVerify = true
 			}
 			hists = append(hists, sk)
+		}
+	}
+	// corpus 6: HelloCustom + ApplyPreset clients (specs of parrots with extensions removed, fingerprinted copies) next
+	// to UClient(id) clients over one cache
+	var customs []*parrot
+	for _, p := range usable {
+		if p.Custom {
+			customs = append(customs, p)
+		}
+	}
+	for _, p := range customs {
+		for _, k := range []int{srv12, srv13} {
+			if k == srv13 && !p.Max13 {
+				continue
+			}
+			hists = append(hists, []connPlan{mk(p, 0, k, hour), mk(p, 0, k, hour), mk(p, 0, k, hour)})
+		}
+		// a session stored by a stock client, then this custom client, and back
+		for _, a := range pick("Chrome_100", "Golang", "Chrome_100_PSK") {
+			if c.Tier == "quick" && a.Name == "Chrome_100_PSK" && !strings.Contains(p.Name, "PSK") {
+				continue
+			}
+			hists = append(hists, []connPlan{mk(a, 0, srv12, hour), mk(p, 0, srv12, hour), mk(p, 0, srv12, hour), mk(a, 0, srv12, hour)})
+			if c.Tier != "quick" || strings.Contains(p.Name, "PSK") {
+				hists = append(hists, []connPlan{mk(a, 0, srv13, hour), mk(p, 0, srv13, hour), mk(p, 0, srv13, hour), mk(a, 0, srv13, hour)})
+			}
 		}
 	}
 	ncorpus := len(hists)
